@@ -1,7 +1,8 @@
 /- C19 / FI: generic helper lemmas on top of LifeHeap / LifeInv / LifeCount (monad laws, footprint weakening,
    locality of the views, derived primitives, counting). -/
 import DSProofs.Lemmas.LifeInv
-namespace DS.Life
+namespace DS.Life.Fi
+open DS.Life
 
 /-! ### monad laws of `M` (pointwise) -/
 
@@ -50,7 +51,7 @@ theorem Frame.find? {S : Nat → Bool} {h h' : Heap} (fr : Frame S h h') {b : Na
 
 theorem SafeF.weaken {α} {S S' : Nat → Bool} (hsub : ∀ b, S b = true → S' b = true) {h : Heap}
     {r : Except Err (α × Heap)} {Q : α → Heap → Prop} (s : SafeF S h r Q) : SafeF S' h r Q :=
-  SafeX.mono s (fun _ _ ⟨q, f⟩ => ⟨q, f.mono hsub⟩)
+  SafeX.mono s (fun _ _ ⟨q, f⟩ => ⟨q, Frame.mono hsub f⟩)
 
 theorem TripleS.weaken {α} {n0 : Nat} {S S' : Nat → Bool} (hsub : ∀ b, S b = true → S' b = true)
     {P : Heap → Prop} {m : M α} {Q : α → Heap → Prop} (t : TripleS n0 S P m Q) : TripleS n0 S' P m Q :=
@@ -77,7 +78,7 @@ theorem SafeF.bind_sub {α β} {n1 : Nat} {S0 S : Nat → Bool} {P : Heap → Pr
     obtain ⟨a, h'⟩ := r
     rw [hm] at h1
     obtain ⟨hq, hfr⟩ := h1
-    exact (k a h' hq hfr).rebase (hfr.mono hsub)
+    exact (k a h' hq hfr).rebase (Frame.mono hsub hfr)
 
 /-- the same for a sub-program that is the last statement -/
 theorem SafeF.sub {α} {n1 : Nat} {S0 S : Nat → Bool} {P : Heap → Prop} {m : M α} {Q1 Q : α → Heap → Prop} {h : Heap}
@@ -384,4 +385,4 @@ theorem copyConstruct_bind {β} (sb si db di : Nat) (f : Unit → M β) :
     (copyConstruct sb si db di >>= f) = (read sb si >>= fun v => construct db di v >>= f) := by
   unfold copyConstruct; rw [bind_assoc_M]
 
-end DS.Life
+end DS.Life.Fi
